@@ -35,7 +35,7 @@ TRUSTED = [
     "Audit.start_audit is modelled by its os.chdir only (audit flags NONE in the runs)",
     "harness/lib/procs.py",
 ]
-ASSUMPTIONS = ["debug worker, Job.run (run_async is modelled, exercised only through its shared code)",
+ASSUMPTIONS = ["debug worker / Job.run for python tasks; cf worker / Job.run_async for workflow tasks",
                "the directory part of C35_finally_region is stated while the lock is still held; afterwards it "
                "persists in single-submitter histories (C35_outside_leaves_directory)"]
 RULE = ("one process, 1-3 submissions of one task (succeeding or failing body, rerun or not) with counting task hooks; "
@@ -78,7 +78,7 @@ def outside_protected_region(sc):
 
 def mk(name, task, subs, inject=None):
     rules = [{"label": inject[0], "nth": inject[1], "action": "raise"}] if inject else []
-    return dict(name=name, pre=False, task=task, timeout=120,
+    return dict(name=name, pre=False, task=task, timeout=(300 if task.get("worker") == "cf" else 120),
                 stages=[dict(children=[dict(subs=subs, rules=rules, inject=list(inject) if inject else None)], gate=None)])
 
 
@@ -108,6 +108,19 @@ def gen_scenarios(ctx, corpus):
     if full:
         out.append(mk("c35-body-chdir-hist", dict(task="python", x=rng.randrange(1, 40), chdir=True), [{}, {}, dict(rerun=True)]))
         out.append(mk("c35-body-chdir-inj", dict(task="python", x=rng.randrange(1, 40), chdir=True), [{}], ("job.body_left", 1)))
+    # the Job.run_async path: a workflow through the cf worker (the workflow's own job runs in the submitting process;
+    # raise_errors=False there, a failure comes back as an errored result) - and the same workflow through debug
+    wf = lambda **kw: dict(task="workflow", x=rng.randrange(1, 40), **kw)
+    out.append(mk("c35-async-wf", wf(worker="cf"), [{}, {}]))
+    out.append(mk("c35-async-wf-fails", wf(worker="cf", fail=True), [{}]))
+    if full:
+        out.append(mk("c35-async-wf-rerun", wf(worker="cf"), [{}, dict(rerun=True)]))
+        out.append(mk("c35-async-wf-hook", wf(worker="cf"), [dict(hook_raises="pre_run_task")]))
+        out.append(mk("c35-async-wf-posthook", wf(worker="cf"), [dict(hook_raises="post_run_task")]))
+        out.append(mk("c35-sync-wf", wf(), [{}, {}]))
+        out.append(mk("c35-sync-wf-fails", wf(fail=True), [{}]))
+        for p in [("job.populated", 1), ("job.audit_started", 1), ("job.body_left", 1), ("job.info_removed", 1)]:
+            out.append(mk("c35-async-wf-inj-%d" % k, wf(worker="cf"), [{}], p)); k += 1
     # histories without injection: hits, reruns, failing bodies executed again
     hist = [[{}, {}], [{}, dict(rerun=True)], [{}, {}, dict(rerun=True)], [dict(rerun=True), {}]]
     for h in (hist if full else hist[:2]):
@@ -126,7 +139,7 @@ def run(ctx):
         results = list(ex.map(procs.run_scenario, scs))
     out = Outcome(rule=RULE)
     cases, seen = [], set()
-    dist = {"body_or_hook_chdir": 0, "inject_pre_try": 0, "inject_try": 0, "inject_handler": 0, "inject_finally": 0, "inject_outside": 0,
+    dist = {"run_async_path": 0, "workflow": 0, "body_or_hook_chdir": 0, "inject_pre_try": 0, "inject_try": 0, "inject_handler": 0, "inject_finally": 0, "inject_outside": 0,
             "raising_hook": 0, "failing_body": 0, "histories": 0, "submissions": 0}
     nontrivial = 0
     for sc, res in zip(scs, results):
@@ -138,6 +151,8 @@ def run(ctx):
         for name, group in (("pre_try", PRE_TRY), ("try", TRY), ("handler", HANDLER), ("finally", FINALLY), ("outside", OUTSIDE)):
             dist["inject_" + name] += inj in group
         hooks = any(s.get("hook_raises") for s in ch["subs"])
+        dist["run_async_path"] += sc["task"].get("worker") == "cf" and sc["task"]["task"] == "workflow"
+        dist["workflow"] += sc["task"]["task"] == "workflow"
         moved = bool(sc["task"].get("chdir")) or any(s.get("hook_chdir") for s in ch["subs"])
         dist["body_or_hook_chdir"] += moved
         dist["raising_hook"] += hooks
